@@ -35,6 +35,10 @@ class Ctx:
         self.scratch = os.path.join(VERIF, ".scratch", f"{pid}-{os.getpid()}")
         shutil.rmtree(self.scratch, ignore_errors=True)
         os.makedirs(self.scratch)
+        import glob
+
+        for old in glob.glob(os.path.join(VERIF, "replays", f"{pid}-*.json")):
+            os.unlink(old)
         self.violations: list[dict] = []
         self.known: list[str] = []
         self.findings = findings_mod.load(os.path.join(VERIF, "KNOWN_FINDINGS.txt"))
